@@ -1,10 +1,30 @@
 package main
 
 import (
+	"encoding/json"
+	"fmt"
+	"os"
+	"path/filepath"
+
 	"verif/sim/core"
 	"verif/sim/engines"
 )
 
 func main() {
+	if len(os.Args) > 2 && os.Args[1] == "mkcorpus" {
+		dir := os.Args[2]
+		es, stored := engines.MakeCorpus()
+		for name, b := range stored {
+			if err := os.WriteFile(filepath.Join(dir, name), b, 0o644); err != nil {
+				panic(err)
+			}
+		}
+		b, _ := json.MarshalIndent(es, "", " ")
+		if err := os.WriteFile(filepath.Join(dir, "manifest.json"), append(b, '\n'), 0o644); err != nil {
+			panic(err)
+		}
+		fmt.Println("corpus entries:", len(es), "stored files:", len(stored))
+		return
+	}
 	core.Main(engines.All())
 }
